@@ -15,8 +15,8 @@ EXTENDS Grogu, Json
 CONSTANTS TraceFile, Checked, Owned
 TraceLog == ndJsonDeserialize(TraceFile)
 
-VARIABLES l, ph
-tvars == <<vars, l, ph>>
+VARIABLES l, ph, liveDecl    \* liveDecl: the script of the current trace declares itself within the assumptions
+tvars == <<vars, l, ph, liveDecl>>
 
 Line == TraceLog[l]
 
@@ -34,7 +34,7 @@ ToSet(q) == {q[i] : i \in 1..Len(q)}
 AllSlots == Start..(Start + Offset - 1)
 
 TraceInit ==
-    /\ l = 1 /\ ph = "act"
+    /\ l = 1 /\ ph = "act" /\ liveDecl = FALSE
     /\ clk = 0 /\ bt = 0 /\ h = 0
     /\ par = [cool |-> 0, disc |-> 0, grace |-> 0, tries |-> 1, P |-> 1, L |-> 1, D |-> 0]
     /\ feeds = [s \in Sig |-> [iv |-> 0, dev |-> 0]]
@@ -60,7 +60,7 @@ ResetVars(c, st) ==
     /\ lastPoll' = st.lastPoll
     /\ out' = "init"
     \* the script declares whether it stays within the timing assumptions; the exact conditions are re-checked
-    /\ calm' = (c.live /\ \A s \in Sig : feeds'[s].iv > 0 => TimingOK(feeds'[s].iv))
+    /\ calm' = (c.live /\ \A s \in Sig : feeds'[s].iv > 0 => TimingOKp(par', feeds'[s].iv))
     /\ waited' = [s \in Sig |-> 0]
     /\ rejSeen' = FALSE
 
@@ -93,6 +93,7 @@ TSetFeeds == SetFeeds(LFeeds(Line.s))
 Act ==
     /\ ph = "act" /\ l <= Len(TraceLog)
     /\ ph' = "sync" /\ l' = l
+    /\ liveDecl' = IF Line.e = "Reset" THEN Line.c.live ELSE liveDecl
     /\ IF Line.e = "Reset" THEN ResetVars(Line.c, Line.s)
        ELSE CASE Line.e = "Tick"     -> TTick
               [] Line.e = "Svc"      -> TSvc
@@ -128,7 +129,7 @@ Sync ==
         /\ Bind("nsub", nsub, nsub', st.nsub)
         /\ Bind("mempool", mempool, mempool', LMem(st))
         /\ Bind("lastPoll", lastPoll, lastPoll', st.lastPoll)
-    /\ UNCHANGED <<par, out, calm, waited, rejSeen>>
+    /\ UNCHANGED <<par, out, calm, waited, rejSeen, liveDecl>>
 
 TraceNext == Act \/ Sync
 TraceSpec == TraceInit /\ [][TraceNext]_tvars
@@ -141,6 +142,9 @@ TraceAccepted ==
 \* invariants are evaluated on the states between lines (after Sync)
 AtLine == ph = "act" /\ l > 1
 TInv == AtLine => Inv
+
+\* development aid (not part of the C20 cfg): a script that declares itself live keeps the assumptions
+TCalmKept == (AtLine /\ liveDecl) => calm
 
 Exempt == ph = "sync" \/ (l <= Len(TraceLog) /\ TraceLog[l].e = "Reset")
 TRelease == [][Exempt \/ ReleaseA]_tvars
